@@ -242,7 +242,11 @@ def composed_integer_stage(ctx):
              {"allOf": [I(minimum=1), I(maximum=65535)]},
              {"allOf": [I(exclusiveMinimum=0), I(exclusiveMaximum=256)]},
              {"anyOf": [I(minimum=0, maximum=0), I(minimum=5, maximum=5), I(minimum=-1, maximum=-1)]},
-             {"oneOf": [I(exclusiveMinimum=-1, exclusiveMaximum=1), I(minimum=2)]}]
+             {"oneOf": [I(exclusiveMinimum=-1, exclusiveMaximum=1), I(minimum=2)]},
+             # bounds stated by exclusion (`not` of a one-sided range), inclusive and exclusive, alone and next to a bound
+             {"not": {"exclusiveMaximum": 0}}, {"not": {"maximum": -1}}, {"not": {"exclusiveMinimum": 256}, "minimum": 0},
+             {"not": {"minimum": 256}, "minimum": 0}, {"not": {"exclusiveMaximum": 1}}, {"not": {"maximum": 0}},
+             {"allOf": [I(minimum=0), {"not": {"exclusiveMinimum": 255}}]}, {"allOf": [I(), {"not": {"exclusiveMaximum": 0}}]}]
     schemas = [dict(I(**b), **c) for b in bodies for c in comps]
     ans = m2.tvh_ir([{"settings": {}, "calls": [{"root": {"definitions": {"T": sc}}}]} for sc in schemas])
     probes = [-2**31 - 1, -129, -128, -2, -1, 0, 1, 2, 5, 10, 11, 100, 127, 128, 200, 201, 255, 256, 65535, 65536, 2**31 - 1, 2**31, 2**32]
@@ -272,8 +276,10 @@ def composed_integer_stage(ctx):
         if rs is None or any(lo is None for lo, hi in rs): continue
         judged += 1
         doc = {"definitions": {"T": sc}}
-        for v in probes:
-            if gen.lite_valid(doc, sc, v) and not any(lo <= v <= hi for lo, hi in rs):
+        # (validity by the draft-07 validator: `not` of a range is outside what gen.lite_valid reads)
+        valid = gen.run_oracle([{"doc": doc, "schema": sc, "value": v} for v in probes]) if "not" in json.dumps(sc) else [gen.lite_valid(doc, sc, v) for v in probes]
+        for v, ok in zip(probes, valid):
+            if ok is True and not any(lo <= v <= hi for lo, hi in rs):
                 fails.append({"schema": sc, "value": v, "representable": rs,
                               "what": "%r is admitted by the schema but no integer type of the generated type holds it (%s)" % (v, rs)}); break
     return {"evaluations": len(schemas), "judged": judged, "refused": refused, "fails": fails}
